@@ -312,6 +312,42 @@ def build(run):
         return proved("exec+structural", vcs=n, sample=f"{n} (operator, operand kind, shape, gdim) cases: textbook shapes before and after expansion; derivatives of cellwise constants vanish")
     run.add("constructor/derivative-operator-shapes(incl. cellwise-constant operands)", shapes, kind="values")
 
+    # ---- every spelling of a partial derivative: x.dx(i, j), x.dx((i, j)), Dx(x, i, j), Dx(x, (i, j)) with fixed and free indices denote d_i d_j x (one gradient
+    # per index, taken on the LAST axes), with the shape of x; compared with the components of grad(grad(x)) written out here
+    def dx_spellings():
+        from ufl import Dx, as_tensor
+        ii, jj, kk = Index(), Index(), Index()
+        P2 = lambda sh: ufl.Coefficient(ufl.FunctionSpace(tri, E.LagrangeElement(tri.ufl_cell(), 3, sh)))     # noqa: E731
+        n = 0
+        for sh in ((), (2,), (2, 2)):
+            x_ = P2(sh)
+            lead = (slice(None),) * len(sh)
+            idx_sets = [(0,), (1,), (0, 1), (1, 0), (1, 1), (0, 1, 1), (ii,), (ii, jj), (ii, ii), (0, ii), (ii, 1), (ii, jj, kk), (ii, jj, jj)]
+            for idx in idx_sets:
+                nested = x_
+                for _ in idx:
+                    nested = grad(nested)
+                want = nested[lead + tuple(idx)] if sh else nested[tuple(idx)]
+                spellings = {"x.dx(*idx)": lambda: x_.dx(*idx), "x.dx(idx as a tuple)": lambda: x_.dx(tuple(idx)), "Dx(x, *idx)": lambda: Dx(x_, *idx), "Dx(x, idx as a tuple)": lambda: Dx(x_, tuple(idx))}
+                for sname, mk in spellings.items():
+                    try:
+                        e = mk()
+                    except (ValueError, IndexError, TypeError) as ex:
+                        return violated(f"{sname} with idx = {tuple(map(str, idx))} on a field of shape {sh} cannot be built: {crash_text(ex)}",
+                                        replay={"spelling": sname, "indices": [str(i_) for i_ in idx], "shape": list(sh)}, reproduced=True, backend="exec")
+                    n += 1
+                    if tuple(e.ufl_shape) != tuple(want.ufl_shape) or tuple(e.ufl_free_indices) != tuple(want.ufl_free_indices):
+                        return violated(f"{sname} with idx = {tuple(map(str, idx))} on a field of shape {sh} has shape {e.ufl_shape} and free indices {e.ufl_free_indices}; "
+                                        f"the partial derivative has shape {want.ufl_shape} and free indices {want.ufl_free_indices} (expression: {e})",
+                                        replay={"spelling": sname, "indices": [str(i_) for i_ in idx], "shape": list(sh), "expr": str(e)}, reproduced=True, backend="structural")
+                    r = apply_derivatives(apply_algebra_lowering(e))
+                    res = check_same(atoms_world(), r, lambda w, c, env, want=want: den(w, want, c, env), want.ufl_shape, want.ufl_free_indices, want.ufl_index_dimensions,
+                                     timeout_ms=tmo, what=f"{sname} idx={tuple(map(str, idx))} shape={sh}")
+                    if res.status != "proved":
+                        return res
+        return proved("exec+normaliser", vcs=n, sample=f"{n} (spelling, index tuple, field shape) cases: shape, free indices and value of the partial derivative")
+    run.add("operator/dx-and-Dx-spellings", dx_spellings, kind="values")
+
     def canary():
         e = grad(f * g_)
         r = apply_derivatives(e)
